@@ -75,7 +75,7 @@ def run(prog, chk):
     ins = [n for n, l, r, op in g.writes() if SX.is_node(SX.strip(l)) and SX.strip(l)['k'] == 'index' and _m(SX.strip(l)['base'], cache)]
     ins += calls(lambda e: e['k'] == 'mcall' and SX.short(e['callee']) in ('emplace', 'insert', 'try_emplace', 'insert_or_assign') and _m(e.get('obj'), cache))
     opush = calls(lambda e: e['k'] == 'mcall' and SX.short(e['callee']) in ('push_back', 'emplace_back') and _m(e.get('obj'), order)) if order else []
-    chk.count('recursive loadModule call sites', len(rec_calls), 2)
+    chk.count('recursive loadModule call sites', len(rec_calls), 0)
     for what, lst in (('cycle test', cyc_conds), ('cache test', cache_conds), ('stack push', push), ('stack pop', pop), ('parse', parse), ('cache insert', ins), ('order push', opush)):
         if not lst:
             chk.ob('R19.1', lm, lm.ln, False, 'loadModule has no %s' % what, key='present:' + what)
@@ -146,6 +146,15 @@ def run(prog, chk):
             if cp and ((cp[0] == '==' and n.pol) or (cp[0] == '!=' and not n.pol)) and any(
                     SX.is_node(x) and SX.strip(x).get('k') == 'ref' and SX.strip(x).get('id') == cid for x in cp[1:]):
                 selfskip.append(n)
+    # every package comparison judges a module that was loaded since its target was resolved: walking back from the comparison,
+    # a resolver call is met only behind a recursive load
+    rcalls = calls(lambda e: e['k'] == 'mcall' and SX.short(e['callee']) in ('resolveImportPath', 'resolvePackageModules'))
+    for i, pk in enumerate(pk_conds):
+        back = g.reachable([pk], forward=False, avoid=rec_calls)
+        unl = [x for x in rcalls if x.id in back]
+        chk.ob('R19.1', lm, pk.ln or lm.ln, bool(rec_calls) and not unl,
+               'the module whose package is compared was loaded (recursive loadModule) after its target was resolved; reached without a load from: %s' %
+               [SX.show(x.e)[:40] for x in unl], key='resolved-is-loaded#%d' % i)
     for i, rs in enumerate(resolves):
         r = g.reachable([rs], avoid=pk_conds + selfskip)
         # within the import loop: reaching a loop head again (next import / next wildcard target) or the exit without the comparison
@@ -270,3 +279,4 @@ def _roots_sequences(f, g):
         out[pol] = seq
     # the search-path appends must iterate the configured search-path member in order
     return out
+
